@@ -16,20 +16,37 @@ from ..lib.common import Ctx, MachineryError, repo_python_path
 
 MANIFEST = {
     "engine": "E1-Namespace",
-    "technique": "Lean 4 refinement proof (Namespace model refines a nested-dict spec) + regenerated clash table + step-by-step differential correspondence",
+    "technique": "Lean 4 refinement proof (Namespace model refines a nested-dict spec; exact deviating class through dict values; naturality in the "
+                 "atoms; insertion order; key-helper algebra) + regenerated clash table + pinned normalised source of every function of _namespace.py "
+                 "+ classified public surface + step-by-step differential correspondence",
     "text": "Theorems in lean/Jap/Props/C11.lean prove, for all keys, values and operation sequences, that the model of _namespace.py "
-            "refines a nested-dictionary specification whenever no key path runs through a plain dict value (the open known finding), that keys/values/as_flat "
-            "agree with items, that update is the fold of assignments, that dict -> namespace -> dict is the identity on plain nested dictionaries, that "
-            "strip_meta removes exactly the meta keys (idempotent) and that get_sorted_keys is a stable depth-descending permutation; the model is "
-            "tied to the code by regenerating dir(Namespace) into Gen/NsTables and by comparing model and real Namespace after every step of "
-            "generated and exhaustively enumerated operation sequences.",
-    "level_note": "Trusted: Lean kernel; axioms propext/Quot.sound/Classical.choice only; the extractor; the correspondence harness; String.splitOn as the "
-                  "model of str.split. Object identity is left to C08. Keys starting with U+200B and dict-only attribute names are outside the model.",
+            "refines a nested-dictionary specification for every operation outside the exact deviating class (a dict value lies on the key path AND the "
+            "walk of _parse_key gets through it: thruDict/devGet/devPop), and that inside that class it does not (the open known finding, with what the "
+            "code does instead); that every operation and history is natural in the atoms (relabelling leaves by any function commutes with set/get/del/pop/"
+            "update: no value is ever compared or converted - type-exactness); that assignment keeps the insertion order at every level, on every state; "
+            "that keys/values/as_flat agree with items, that update is the fold of assignments, that dict -> namespace -> dict is the identity on plain "
+            "nested dictionaries, that Namespace(ns) holds the entries of ns, that split_key/split_key_root/split_key_leaf/join and the clash marks "
+            "satisfy their algebra (split/join inverse, root and leaf agree with the full split, mark added once and removed again), that strip_meta "
+            "removes exactly the meta keys (idempotent) and that get_sorted_keys is a stable depth-descending permutation. The model is tied to the code "
+            "by regenerating dir(Namespace), clash mark and meta_keys into Gen/NsTables, by pinning the normalised statements of every function of "
+            "_namespace.py and the classified public surface (Gen/NsSrc, tie_src_* / tie_surface theorems: a new public attribute that is neither modelled "
+            "nor on the not-modelled list, or any edited statement, breaks the tie), and by comparing model and real Namespace (state incl. clash marks, "
+            "result, membership in the deviating classes) after every step of generated and exhaustively enumerated operation sequences.",
+    "level_note": "Trusted: Lean kernel; axioms propext/Quot.sound/Classical.choice only; the extractors; the correspondence harness; the wire encoding of "
+                  "scalars (ints >= 1000 stand for True/False/0.0/1.0/'0'/''/2.0). Object identity is left to C08. Keys starting with U+200B and dict-only "
+                  "attribute names are outside the model; __repr__ and patch_namespace are not modelled (explicit list in harness/extractors/ns_src.py; "
+                  "patch_namespace has an oracle-only check); attribute reads/deletes are modelled for non-clash names only (for a clash name Python finds "
+                  "the class attribute).",
 }
 
 ORD = ["a", "b", "c"]
 CLASH = ["items", "keys", "get", "update", "pop", "clone", "values", "as_dict"]
 FINDING_DICT = "C11-through-dict"
+
+
+class MyDict(dict):
+    """a user's dict subclass held as a value: {"D": items} on the wire.  The model has one kind of dict (the driver
+    reads "D" as "d", the correspondence compares modulo that); the TYPE is watched by the oracle (canon_obs)"""
 
 
 # ---------------------------------------------------------------- wire values
@@ -47,7 +64,7 @@ def enc(v):
     if isinstance(v, Namespace):
         return {"n": [[k, enc(x)] for k, x in vars(v).items()]}
     if isinstance(v, dict):
-        return {"d": [[k, enc(x)] for k, x in v.items()]}
+        return {("d" if type(v) is dict else "D"): [[k, enc(x)] for k, x in v.items()]}
     if isinstance(v, list):
         return [enc(x) for x in v]
     if isinstance(v, tuple):
@@ -74,6 +91,8 @@ def dec(j):
         return tuple(dec(x) for x in j["t"])
     if "d" in j:
         return {k: dec(x) for k, x in j["d"]}
+    if "D" in j:
+        return MyDict((k, dec(x)) for k, x in j["D"])
     if "n" in j:
         ns = Namespace()
         for k, x in j["n"]:
@@ -156,9 +175,42 @@ def real_step(cur, op):
             return None, Namespace(dec(op["v"]))
         if o == "dict_to_namespace":
             return None, dict_to_namespace(dec(op["v"]))
+        if o == "init_kwargs":
+            return None, Namespace(**dec(op["v"]))
+        if o == "from_ns":
+            return None, Namespace(dec(op["v"]))
+        if o == "init_bad":
+            bad = [lambda: Namespace(1), lambda: Namespace({}, {}), lambda: Namespace({}, a=1), lambda: Namespace([("a", 1)])]
+            bad[op["n"] % len(bad)]()
+            return None, cur
+        if o == "namespace_to_dict":
+            from jsonargparse import namespace_to_dict
+
+            return enc(namespace_to_dict(cur)), cur
+        if o == "value_and_parent":
+            v, parent, leaf = cur.get_value_and_parent(k)
+            return {"v": enc(v), "p": enc(parent), "l": leaf}, cur
+        if o == "getattr":
+            return {"v": enc(getattr(cur, k))}, cur
+        if o == "hasattr":
+            return hasattr(cur, k), cur
+        if o == "delattr":
+            delattr(cur, k)
+            return None, cur
+        if o == "eq_other":
+            return (cur == [cur.as_dict(), None, 0, "x"][op["n"] % 4]), cur
+        if o in KEY_FUNCS:
+            from jsonargparse import _namespace as m
+
+            return getattr(m, o)(k), cur
     except Exception as ex:  # noqa: BLE001 - the error class is the observation
         return {"err": err_name(ex)}, cur
     raise MachineryError("unknown op " + o)
+
+
+KEY_FUNCS = ("split_key", "split_key_root", "split_key_leaf", "is_meta_key", "add_clash_mark", "del_clash_mark")
+KEYED_OPS = ("set", "setattr", "get", "getdef", "del", "pop", "contains", "value_and_parent")
+MARK = "\u200b"
 
 
 def real_run(ops):
@@ -167,9 +219,71 @@ def real_run(ops):
     cur = Namespace()
     out = []
     for op in ops:
+        dev = None
+        if op["op"] in KEYED_OPS and isinstance(op.get("k"), str):
+            segs = ref_segs(op["k"])  # membership in the deviating classes on the state BEFORE the operation
+            dev = list(dev_class(cur, segs)) if segs else [False, False, False]
         r, cur = real_step(cur, op)
-        out.append({"r": r, "s": enc(cur)})
+        rec = {"r": r, "s": enc(cur)}
+        if dev is not None:
+            rec["dev"] = dev
+        out.append(rec)
     return out
+
+
+# ---------------------------------------------------------------- the exact deviating classes (finding C11-through-dict)
+_CLASH = None
+
+
+def _mk(s):
+    """the name `_parse_key` looks up: clash-marked when it is one of dir(Namespace)"""
+    global _CLASH
+    if _CLASH is None:
+        from jsonargparse import Namespace
+
+        _CLASH = set(dir(Namespace))
+    return MARK + s if s in _CLASH else s
+
+
+def walk_class(root, segs):
+    """the parent the walk of `_parse_key` lands on — on the reference tree (Node branches, plain names) or on a real
+    Namespace (marked names): (landing object or None when the walk fails, a plain dict value was entered)"""
+    from jsonargparse import Namespace
+
+    cur, met = root, False
+    for s in segs[:-1]:
+        if isinstance(cur, Node):
+            if s not in cur:
+                return None, met
+            cur = cur[s]
+        elif isinstance(cur, Namespace):
+            if _mk(s) not in vars(cur):
+                return None, met
+            cur = vars(cur)[_mk(s)]
+        elif isinstance(cur, dict):
+            if _mk(s) not in cur:
+                return None, met
+            cur = cur[_mk(s)]
+        else:
+            return None, met
+        if isinstance(cur, dict) and not isinstance(cur, Node):
+            met = True
+        if not isinstance(cur, (Node, Namespace, dict)):
+            return None, met
+    return cur, met
+
+
+def dev_class(root, segs):
+    """(thruDict, devGet, devPop) of Lemmas/NamespaceThru.lean: the operations that leave the nested-dict reading.
+    set: a dict lies on the path and the walk gets through; get/contains/del: ... and ends in a namespace holding the
+    leaf; pop: that, or the walk ends in a non-empty dict"""
+    from jsonargparse import Namespace
+
+    land, met = walk_class(root, segs)
+    thru = met and land is not None
+    dget = bool(met and isinstance(land, Namespace) and _mk(segs[-1]) in vars(land))
+    dpop = dget or bool(met and isinstance(land, dict) and not isinstance(land, (Node, Namespace)) and len(land) > 0)
+    return thru, dget, dpop
 
 
 # ---------------------------------------------------------------- reference (the property's nested dict)
@@ -297,7 +411,7 @@ def ref_strip(v):
     if isinstance(v, Namespace):
         return ref_strip(ref_of_value(v))
     if isinstance(v, dict):
-        return {k: ref_strip(x) for k, x in v.items() if k not in META}
+        return type(v)((k, ref_strip(x)) for k, x in v.items() if k not in META)
     if isinstance(v, list):
         return [ref_strip(x) for x in v]
     if type(v) is tuple:
@@ -334,7 +448,16 @@ def ref_step(root, op):
     o = op["op"]
     k = op.get("k")
     segs = ref_segs(k) if isinstance(k, str) else None
-    through = bool(segs) and ref_through_dict(root, segs)
+    thru, dget, dpop = dev_class(root, segs) if segs else (False, False, False)
+    through = {"set": thru, "setattr": thru and "." in (k or ""), "get": dget, "getdef": dget, "contains": dget, "del": dget,
+               "value_and_parent": dget, "pop": dpop, "update": thru}.get(o, False)
+    if o in KEYED_OPS and not isinstance(k, str):
+        # a key that is not a string: `get` answers the default, `in` answers False, everything else is a TypeError
+        if o == "getdef":
+            return ("v", dec(op["v"])), root, False
+        if o == "contains":
+            return False, root, False
+        return "error", root, False
     try:
         if o == "new":
             return None, Node(), False
@@ -390,7 +513,7 @@ def ref_step(root, op):
                 s2 = ref_segs(pre + kk)
                 if s2 is None:
                     raise KeyError(pre + kk)
-                any_through = any_through or ref_through_dict(root, s2)
+                any_through = any_through or dev_class(root, s2)[0]
                 if not only or not _ref_has(root, pre + kk):
                     ref_set(root, pre + kk, vv)
             return None, root, any_through
@@ -433,9 +556,60 @@ def ref_step(root, op):
                 s2 = ref_segs(kk)
                 if s2 is None:
                     raise KeyError(kk)
-                thr = thr or ref_through_dict(n, s2)
+                thr = thr or dev_class(n, s2)[0]
                 ref_set(n, kk, ref_of_value(vv))
             return None, n, thr
+        if o == "init_kwargs":
+            n = Node()
+            thr = False
+            for kk, vv in dec(op["v"]).items():
+                if "." in kk:
+                    s2 = ref_segs(kk)
+                    if s2 is None:
+                        raise KeyError(kk)
+                    thr = thr or dev_class(n, s2)[0]
+                    ref_set(n, kk, ref_of_value(vv))
+                else:
+                    n[kk] = ref_of_value(vv)
+            return None, n, thr
+        if o == "from_ns":
+            return None, ref_of_value(dec(op["v"])), False
+        if o == "init_bad":
+            return "error", root, False
+        if o == "namespace_to_dict":
+            return ("as_dict", ref_as_dict(root)), root, False
+        if o == "value_and_parent":
+            if segs is None:
+                raise KeyError(k)
+            p = ref_parent(root, segs)
+            if p is None or segs[-1] not in p:
+                raise KeyError(k)
+            return ("vp", p[segs[-1]], p, segs[-1]), root, through
+        if o == "getattr":
+            if k not in root:
+                raise KeyError(k)
+            return ("v", root[k]), root, False
+        if o == "hasattr":
+            return (k in root or _mk(k) != k), root, False
+        if o == "delattr":
+            del root[k]
+            return None, root, False
+        if o == "eq_other":
+            return False, root, False
+        if o in KEY_FUNCS:
+            if o == "split_key":
+                return ("exact", k.split(".")), root, False
+            if o == "split_key_root":
+                return ("exact", k.split(".", 1)), root, False
+            if o == "split_key_leaf":
+                return ("exact", k.rsplit(".", 1)), root, False
+            if o == "is_meta_key":
+                return ("exact", k.rsplit(".", 1)[-1] in META), root, False
+            if o == "add_clash_mark":
+                return ("exact", _mk(k)), root, False
+            if k == "":
+                return "error", root, False
+            return ("exact", k[1:] if k[0] == MARK else k), root, False
         if o == "dict_to_namespace":
             return None, ref_expand(dec(op["v"])), False
     except KeyError:
@@ -452,20 +626,39 @@ def _ref_has(root, key):
 
 
 def canon_obs(x):
-    """canonical comparable form of python values (Namespaces by their unmarked content)"""
+    """canonical comparable form of python values (Namespaces by their unmarked content); mappings keep their ORDER:
+    a nested dictionary iterates in insertion order, and so must the namespace"""
     from jsonargparse import Namespace
 
     if isinstance(x, Node):
-        return ("N", tuple(sorted((k, canon_obs(v)) for k, v in x.items())))
+        return ("N", tuple((k, canon_obs(v)) for k, v in x.items()))
     if isinstance(x, Namespace):
-        return ("N", tuple(sorted((k.lstrip("​"), canon_obs(v)) for k, v in vars(x).items())))
+        return ("N", tuple((k.lstrip("​"), canon_obs(v)) for k, v in vars(x).items()))
     if isinstance(x, dict):
-        return ("D", tuple(sorted((k, canon_obs(v)) for k, v in x.items())))
+        return ("D" if type(x) is dict else "D:" + type(x).__name__, tuple((k, canon_obs(v)) for k, v in x.items()))
     if isinstance(x, list):
         return ("L", tuple(canon_obs(v) for v in x))
     if isinstance(x, tuple):
         return ("T", tuple(canon_obs(v) for v in x))
     return ("A", repr(x))
+
+
+def _poke_deep(x):
+    """write into every container reachable from x"""
+    from jsonargparse import Namespace
+
+    if isinstance(x, Namespace):
+        for v in list(vars(x).values()):
+            _poke_deep(v)
+        x.__dict__["zz_poke"] = 1
+    elif isinstance(x, dict):
+        for v in list(x.values()):
+            _poke_deep(v)
+        x["zz_poke"] = 1
+    elif isinstance(x, list):
+        for v in x:
+            _poke_deep(v)
+        x.append("zz_poke")
 
 
 def oracle_run(ops):
@@ -481,6 +674,8 @@ def oracle_run(ops):
     for i, op in enumerate(ops):
         if op["op"] == "clone_swap":
             originals.append((cur, json.dumps(enc(cur), sort_keys=True)))
+        if op["op"] == "from_ns":
+            pass  # Namespace(ns) is a shallow conversion like Namespace(dict): values are shared by design
         if op["op"] in ("from_dict", "dict_to_namespace"):
             # conversion from a dictionary must neither rewrite the caller's dictionary nor alias its containers
             from jsonargparse import Namespace, dict_to_namespace
@@ -507,6 +702,19 @@ def oracle_run(ops):
             cur = cur2
         else:
             r_real, cur = real_step(cur, op)
+            if op["op"] == "namespace_to_dict":
+                from jsonargparse import namespace_to_dict
+
+                before = json.dumps(enc(cur), sort_keys=True)
+                try:
+                    _poke_deep(namespace_to_dict(cur))
+                except Exception as ex:  # noqa: BLE001 - r_real already holds the error, judged against the reference below
+                    if not (isinstance(r_real, dict) and "err" in r_real):
+                        devs.append((i, False, "namespace_to_dict raises %s on a second call" % err_name(ex)))
+                        return devs
+                if json.dumps(enc(cur), sort_keys=True) != before:
+                    devs.append((i, False, "a write into the result of namespace_to_dict changed the namespace"))
+                    return devs
         for obj, snap in originals:
             if json.dumps(enc(obj), sort_keys=True) != snap:
                 devs.append((i, False, "a write to the clone changed the namespace it was cloned from"))
@@ -527,13 +735,13 @@ def oracle_run(ops):
         elif isinstance(obs, tuple) and obs[0] == "items":
             got = [(k, canon_obs(dec(v))) for k, v in r_real]
             want = [(k, canon_obs(v)) for k, v in obs[1]]
-            if sorted(got) != sorted(want):
-                desc = "items() differ"
+            if got != want:
+                desc = "items() differ" if sorted(got) != sorted(want) else "items() come in another order than the nested dictionary's"
         elif isinstance(obs, tuple) and obs[0] == "keys":
-            if sorted(r_real) != sorted(obs[1]) or len(set(r_real)) != len(r_real):
-                desc = "keys() differ"
+            if list(r_real) != list(obs[1]):
+                desc = "keys() differ" if sorted(r_real) != sorted(obs[1]) else "keys() come in another order than the nested dictionary's"
         elif isinstance(obs, tuple) and obs[0] == "values":
-            if sorted(canon_obs(dec(v)) for v in r_real) != sorted(canon_obs(v) for v in obs[1]):
+            if [canon_obs(dec(v)) for v in r_real] != [canon_obs(v) for v in obs[1]]:
                 desc = "values() differ"
         elif isinstance(obs, tuple) and obs[0] == "sorted_keys":
             depths = [len(k.split(".")) for k in r_real]
@@ -547,6 +755,16 @@ def oracle_run(ops):
         elif isinstance(obs, tuple) and obs[0] == "as_dict":
             if canon_obs(dec(r_real)) != canon_obs(obs[1]):
                 desc = "as_dict() differs"
+        elif isinstance(obs, tuple) and obs[0] == "vp":
+            if canon_obs(dec(r_real["v"])) != canon_obs(obs[1]):
+                desc = "get_value_and_parent: value differs"
+            elif canon_obs(dec(r_real["p"])) != canon_obs(obs[2]):
+                desc = "get_value_and_parent: parent differs"
+            elif r_real["l"].lstrip(MARK) != obs[3]:
+                desc = "get_value_and_parent: leaf key differs"
+        elif isinstance(obs, tuple) and obs[0] == "exact":
+            if r_real != obs[1] or type(r_real) is not type(obs[1]):
+                desc = "%s(%r) differs from the str method it stands for" % (op["op"], op.get("k"))
         elif isinstance(obs, tuple) and obs[0] == "poke":
             if r_real != obs[1]:
                 desc = "number of namespaces held in list leaves differs"
@@ -579,16 +797,27 @@ def gen_value(rng, depth=0, names=None):
             return rng.choice(sorted(VARIANTS))
         return rng.choice([None, 0, 1, 2, 7, -3])
     if r < 0.5:
-        return [gen_value(rng, depth + 1) for _ in range(rng.randint(0, 2))]
+        return [(gen_mydict(rng, depth + 1) if rng.random() < 0.15 else gen_value(rng, depth + 1)) for _ in range(rng.randint(0, 2))]
     if r < 0.6:
         return {"t": [gen_value(rng, depth + 1) for _ in range(rng.randint(0, 2))]}
     if rng.random() < 0.15:
         names = list(names) + list(META)
     if r < 0.8:
         ks = rng.sample(names, rng.randint(0, 2))
-        return {"d": [[k, gen_value(rng, depth + 1)] for k in ks]}
+        items = [[k, gen_value(rng, depth + 1)] for k in ks]
+        if rng.random() < 0.15:
+            items.append(["zz", gen_mydict(rng, depth + 1)])
+        return {"d": items}
     ks = rng.sample(names, rng.randint(0, 2))
     return {"n": [[("​" + k if k in CLASH else k), gen_value(rng, depth + 1)] for k in ks]}
+
+
+def gen_mydict(rng, depth):
+    """a dict-subclass value (clone/strip_meta must keep its content and type).  Held only where no generated key path
+    reaches (inside lists, or under the key "zz" of a dict value): as a PARENT on a key path a dict subclass differs from
+    a plain dict in del/pop (its instances have a `__dict__`), a facet of the through-dict finding outside the model"""
+    ks = rng.sample(ORD + CLASH + list(META), rng.randint(0, 2))
+    return {"D": [[k, gen_value(rng, depth + 1)] for k in ks]}
 
 
 def gen_key(rng, names=None, bad=0.04):
@@ -633,9 +862,42 @@ def gen_observation(rng):
     return {"op": o}
 
 
+def gen_keystr(rng):
+    parts = ["a", "b", "keys", "__path__", "__orig__", ".", ".", "..", " ", MARK, MARK + "keys", "items", "x_y", ""]
+    return "".join(rng.choice(parts) for _ in range(rng.randint(0, 5)))
+
+
+def gen_surface(rng):
+    """the rest of the public surface: the other __init__ forms, attribute access, non-string keys, the key helpers"""
+    o = rng.choice(["init_kwargs", "from_ns", "init_bad", "namespace_to_dict", "value_and_parent", "getattr", "hasattr",
+                    "delattr", "eq_other", "nonstr", "keyfunc", "keyfunc"])
+    if o == "init_kwargs":
+        ks = []
+        for _ in range(rng.randint(0, 3)):
+            ks.append(gen_key(rng, bad=0) if rng.random() < 0.4 else rng.choice(ORD + CLASH))
+        return {"op": o, "v": {"d": [[k, gen_value(rng, 1)] for k in dict.fromkeys(ks)]}}
+    if o == "from_ns":
+        return {"op": o, "v": {"n": gen_value_ns(rng)}}
+    if o in ("init_bad", "eq_other"):
+        return {"op": o, "n": rng.randint(0, 3)}
+    if o == "namespace_to_dict":
+        return {"op": o}
+    if o == "value_and_parent":
+        return {"op": o, "k": gen_key(rng)}
+    if o in ("getattr", "delattr"):
+        return {"op": o, "k": rng.choice(ORD)}   # attribute reads/deletes of clash names are Python's, not Namespace's
+    if o == "hasattr":
+        return {"op": o, "k": rng.choice(ORD + CLASH)}
+    if o == "nonstr":
+        return {"op": rng.choice(["get", "getdef", "contains", "set", "del", "pop"]), "k": rng.choice([5, 0, 1.5]), "v": 99}
+    return {"op": rng.choice(KEY_FUNCS), "k": gen_keystr(rng)}
+
+
 def gen_op(rng):
     if rng.random() < 0.08:
         return gen_observation(rng)
+    if rng.random() < 0.07:
+        return gen_surface(rng)
     r = rng.random()
     if r < 0.30:
         return {"op": "set", "k": gen_key(rng), "v": gen_value(rng)}
@@ -725,7 +987,8 @@ def correspond(ctx: Ctx, seqs, label):
         pos += len(s) + 1
         ctx.count(len(s))
         for i, (a, b) in enumerate(zip(real, mod)):
-            if json.dumps(a, sort_keys=True) != json.dumps(b, sort_keys=True):
+            # the model has one kind of dict: a dict subclass ("D") compares as a dict there; its type is the oracle's business
+            if json.dumps(a, sort_keys=True).replace('{"D":', '{"d":') != json.dumps(b, sort_keys=True):
                 bad.append({"ops": s, "step": i - 1, "real": a, "model": b, "label": label})
                 break
     return bad
@@ -752,7 +1015,7 @@ def judge_oracle(ctx: Ctx, seq, origin):
     new = False
     for i, through, desc in devs:
         if through and ctx.is_open(FINDING_DICT):
-            ctx.known(FINDING_DICT, "operation whose key path traverses a dict value deviates from the nested-dict reference (e.g. %s)" % json.dumps(seq[i], ensure_ascii=True)[:120])
+            ctx.known(FINDING_DICT, "operation in the exact class thruDict/devGet/devPop (a dict value on the key path AND the walk of _parse_key gets through it) deviates from the nested-dict reference (e.g. %s)" % json.dumps(seq[i], ensure_ascii=True)[:120])
             continue
 
         def still(c):
@@ -767,15 +1030,18 @@ def judge_oracle(ctx: Ctx, seq, origin):
 def run(ctx: Ctx):
     repo_python_path()
     ctx.rule = ("operation sequences over {set,setattr,get,getdef,del,pop,contains,update(+only_unset,+key),items,keys,values,bool,as_flat,get_sorted_keys,strip_meta,as_dict,clone,eq,"
-                "Namespace(dict),dict_to_namespace} with dotted keys of depth 1-3 from ordinary and clash names and scalar/list/tuple/dict/namespace "
-                "values; every step compared real vs Lean model (state incl. clash marks + result) and real vs nested-dict reference; "
+                "Namespace(dict),Namespace(ns),Namespace(**kw),bad __init__ forms,dict_to_namespace,namespace_to_dict,get_value_and_parent,getattr/hasattr/delattr,"
+                "non-string keys,== other types,split_key/_root/_leaf,is_meta_key,add/del_clash_mark} with dotted keys of depth 1-3 from ordinary and clash names and scalar/list/tuple/dict/namespace "
+                "values; every step compared real vs Lean model (state incl. clash marks + result + membership in the deviating classes) and real vs nested-dict "
+                "reference (ORDER of items/keys/values/as_dict/state included); a deviation is attributed to the open finding only inside the exact class; "
                 "non-trivial = sequence whose final state has >=1 leaf; distinct by canonical JSON of the sequence")
     ctx.assumptions = [
         "string layer of _parse_key (split on '.', space check) is modelled with String.splitOn and tied by correspondence only",
         "caller keys do not start with U+200B; dict-only attribute names (copy, clear, ...) are outside the segment alphabet",
         "object identity (clone independence) is the subject of C08, here only value-level equality",
+        "dict-subclass values are generated only where no key path reaches them (as a parent on a key path their instances' __dict__ changes del/pop: facet of C11-through-dict)",
     ]
-    ctx.lean_build(extractors=["ns_tables"])
+    ctx.lean_build(extractors=["ns_tables", "ns_src"])
 
     # --- corpus + known-finding witnesses -------------------------------
     from ..lib import corpus as corpus_mod
@@ -805,10 +1071,20 @@ def run(ctx: Ctx):
                 exhaustive_n += 1
         ctx.extra["exhaustive_short_sequences"] = {"alphabet": len(alpha), "max_len": 2, "count": exhaustive_n}
 
+    # the key helpers: exhaustively on all strings of length <= 5 over {a, ., U+200B}, plus random longer ones
+    n_keyfun = 0
+    for L in range(0, 6):
+        for chars in itertools.product("a." + MARK, repeat=L):
+            seqs.append([{"op": f, "k": "".join(chars)} for f in KEY_FUNCS])
+            n_keyfun += 1
+    for _ in range(ctx.budget(150, 1500)):
+        seqs.append([{"op": ctx.rng.choice(KEY_FUNCS), "k": gen_keystr(ctx.rng)} for _ in range(8)])
+    ctx.extra["key_helper_strings_exhaustive"] = {"alphabet": ["a", ".", "U+200B"], "max_len": 5, "count": n_keyfun}
+
     for s in seqs:
         for op in s:
             ctx.hist("ops", op["op"])
-        ctx.hist("length", min(len(s) - len(observe_tail()), 40) // 5 * 5)
+        ctx.hist("length", min(max(len(s) - len(observe_tail()), 0), 40) // 5 * 5)
 
     # --- correspondence ----------------------------------------------------
     bad = correspond(ctx, seqs, "generated")
@@ -829,6 +1105,8 @@ def run(ctx: Ctx):
     for s in seqs[n_corpus : n_corpus + 3]:
         ctx.sample(s)
 
+    check_patch_namespace(ctx)
+
     # --- replay of catalogued findings --------------------------------------
     for f in ctx.open_findings():
         devs = oracle_run(f["witness"]["ops"])
@@ -843,6 +1121,33 @@ def run(ctx: Ctx):
     ctx.extra["sequences"] = len(seqs)
 
 
+def patch_namespace_ok():
+    """`patch_namespace()` swaps argparse.Namespace for the duration of the block and restores it, also on an exception"""
+    import argparse
+
+    from jsonargparse._namespace import Namespace, patch_namespace
+
+    orig = argparse.Namespace
+    try:
+        with patch_namespace():
+            inside = argparse.Namespace is Namespace
+        after = argparse.Namespace is orig
+        try:
+            with patch_namespace():
+                raise RuntimeError("x")
+        except RuntimeError:
+            pass
+        return inside and after and argparse.Namespace is orig
+    finally:
+        argparse.Namespace = orig
+
+
+def check_patch_namespace(ctx):
+    ctx.count(1)
+    if not patch_namespace_ok():
+        ctx.violation("patch_namespace does not swap argparse.Namespace inside the block / restore it afterwards", {"kind": "patch_namespace"})
+
+
 def correspond_quiet(ctx, seqs):
     n = ctx.evaluations
     r = correspond(ctx, seqs, "shrink")
@@ -852,6 +1157,8 @@ def correspond_quiet(ctx, seqs):
 
 def replay(ctx: Ctx, body):
     repo_python_path()
+    if body["replay"].get("kind") == "patch_namespace":
+        return 0 if patch_namespace_ok() else 1
     ops = body["replay"]["ops"]
     devs = oracle_run(ops)
     print("deviations from the reference:", devs)
